@@ -91,6 +91,23 @@ def source_records(ctx):
                 except RuntimeError:
                     continue        # not a member of this part family (vectors …): not a typed plasmid for `base`
                 out.append((rec, base))
+        # a laboratory's own directory: its base type is itself a concrete part type that has a variant (a
+        # subclass); plasmids of the base type and of the variant live side by side
+        from Bio.SeqFeature import SeqFeature, SimpleLocation
+        import random
+        r = random.Random(2020)
+        enz = boot.Restriction.BsaI
+        M, _ = impl.generic_classes(enz)
+        Promoter = type("LabPromoter", (boot.AbstractPart, M), {"cutter": enz, "signature": ("GGAG", "TACT")})
+        # (kept alive: `__subclasses__()` only holds weak references)
+        _state["lab_family"] = [Promoter, type("LabPromoterLong", (Promoter,), {"signature": ("GGAG", "AATG")})]
+        for i, (u, d) in enumerate([("GGAG", "TACT"), ("GGAG", "AATG"), ("GGAG", "TACT"), ("GGAG", "AATG")]):
+            wd, _ = gen.gen_module(r, enz, u, d, tlen=20, blen=40)
+            rec = boot.SeqRecord(boot.Seq(wd), id="lab%d" % i, name="lab%d" % i, description="lab plasmid %d" % i,
+                                 annotations={"molecule_type": "DNA", "topology": "circular"})
+            rec.features.append(SeqFeature(SimpleLocation(len(wd) - 30, len(wd) - 5, 1), type="CDS",
+                                           qualifiers={"label": [r.choice(["KanR", "AmpR", "CmR"])]}))
+            out.append((rec, Promoter))
         _state["src"] = out
     return _state["src"]
 
@@ -427,6 +444,13 @@ def run(ctx):
         if d["files"]:
             base = source_records(ctx)[d["files"][0]["src"]][1]
             d["files"] = [f for f in d["files"] if source_records(ctx)[f["src"]][1] is base]
+        ctx.guard(check_dir, d)
+    # directories of the laboratory family whose base type is concrete and has a variant (the last four sources)
+    for _ in range(ctx.budget(8, 200)):
+        d = gen_dir(rng, nsrc)
+        for f in d["files"]:
+            f["src"] = nsrc - 1 - rng.randrange(4)         # the four laboratory plasmids are the last four sources
+            f["labels"] = None
         ctx.guard(check_dir, d)
     for _ in range(ctx.budget(400, 20000)):
         members = [[[rng.randrange(8), rng.randrange(100)] for _ in range(rng.randint(0, 5))]
